@@ -38,8 +38,8 @@ constexpr auto round_check(T const x) noexcept -> T
             !is_finite(x) ? x
                           :
                           // signed-zero cases
-            etl::numeric_limits<T>::epsilon() > abs(x) ? x
-                                                       :
+            x == T(0) ? x
+                      :
                                                        // else
             sgn(x) * round_int(abs(x))
     );
